@@ -190,6 +190,9 @@ func (v *Voucher) OwnerPublicKey() (crypto.PublicKey, error) {
 	if len(v.Entries) == 0 {
 		return v.Header.Val.ManufacturerKey.Public()
 	}
+	if v.Entries[len(v.Entries)-1].Payload == nil {
+		return nil, errors.New("last voucher entry is missing its payload")
+	}
 	return v.Entries[len(v.Entries)-1].Payload.Val.PublicKey.Public()
 }
 
@@ -290,6 +293,11 @@ func (v *Voucher) VerifyEntries() error {
 	// Voucher may have never been extended since manufacturing
 	if len(v.Entries) == 0 {
 		return nil
+	}
+	for i, entry := range v.Entries {
+		if entry.Payload == nil {
+			return fmt.Errorf("voucher entry %d is missing its payload", i)
+		}
 	}
 
 	// Header info is the concatenation of GUID and DeviceInfo
